@@ -1,12 +1,18 @@
 #!/bin/sh
-# runs every seeded change against the quick check of the property it breaks; writes seeded/RESULTS.md
+# runs every seeded change against the quick check of the property it breaks; writes seeded/RESULTS.md and, for the
+# pool properties, seeded/hot_cells.txt (the cells that reported each change; input of tools_core.py)
 OUT=/verif/seeded/RESULTS.md
+HOT=/verif/seeded/hot_cells.txt
 echo "| seeded change | property | quick check result |" > $OUT.tmp
 echo "|---|---|---|" >> $OUT.tmp
+: > $HOT.tmp
 for d in /verif/seeded/*/; do
   n=$(basename $d); p=$(python3 -c "import json;print(json.load(open('$d/meta.json'))['breaks_property'])")
-  r=$(SKIP_TESTS=1 /verif/selftest $d/patch.diff $p 2>/dev/null | grep -c "^VIOLATION")
+  SKIP_TESTS=1 /verif/selftest $d/patch.diff $p > /tmp/matrix.$$.out 2>/dev/null
+  r=$(grep -c "^VIOLATION" /tmp/matrix.$$.out)
   if [ "$r" -gt 0 ]; then res="VIOLATION reported"; else res="MISSED"; fi
+  case $p in C16|C17|C18|C19|C20) ;; *) grep "^  cell=" /tmp/matrix.$$.out | sed "s/^  cell=//; s/ monitor=.*//" | sort -u | sed "s/^/$p\t$n\t/" >> $HOT.tmp;; esac
   echo "| $n | $p | $res |" >> $OUT.tmp; echo "$n $p $res"
 done
-mv $OUT.tmp $OUT
+rm -f /tmp/matrix.$$.out
+mv $OUT.tmp $OUT; mv $HOT.tmp $HOT
